@@ -3,7 +3,7 @@ import uperlib as U
 
 
 def big_lengths(q):
-    return [127, 128, 16383, 16384, 16385, 65535, 65536, 81920, 81925] if q else \
+    return [127, 128, 16383, 16384, 16385, 65535, 65536, 81925] if q else \
         [127, 128, 129, 16383, 16384, 16385, 32767, 32768, 32769, 49152, 65535, 65536, 65537, 81920, 131071, 131072, 131073]
 
 
